@@ -23,6 +23,8 @@ type harness struct {
 	machine *vm.VirtualMachine
 	fns     map[string]object.Object
 	seen    *object.List
+	svm     *vm.VirtualMachine // reused by the script path (saves allocating a VM per program); see evalScript
+	g       map[string]any
 }
 
 func builtinGlobals() map[string]any {
@@ -66,7 +68,8 @@ func newHarness() *harness {
 	if err := m.Run(ctx); err != nil {
 		panic("c16 harness: " + err.Error())
 	}
-	h := &harness{machine: m, fns: map[string]object.Object{}}
+	h := &harness{machine: m, fns: map[string]object.Object{}, g: builtinGlobals()}
+	h.svm, _ = vm.NewEmpty()
 	for _, id := range ids {
 		switch {
 		case strings.HasPrefix(id, "b:"):
@@ -363,14 +366,21 @@ func (h *harness) evalRealInner(w map[string]object.Object, o Op) (object.Object
 
 // ---------------------------------------------------------------- script path
 
-// evalScript evaluates a whole history as one risor program through risor.Eval.
-func evalScript(g map[string]any, src string) (res object.Object, errText string, panicText string) {
+// evalScript evaluates a whole history as one risor program through risor.Eval. With reuse == nil a new VM is
+// created by Eval (the plain embedding path); otherwise the program runs on the given VM (risor.WithVM), which
+// Eval resets first. The search uses the reused VM for speed and re-runs every disagreeing program on a fresh
+// one before reporting, so that a report never depends on VM reuse.
+func evalScript(g map[string]any, src string, reuse *vm.VirtualMachine) (res object.Object, errText string, panicText string) {
 	defer func() {
 		if p := recover(); p != nil {
 			res, errText, panicText = nil, "", fmt.Sprintf("panic out of risor.Eval: %v", p)
 		}
 	}()
-	res, err := risor.Eval(context.Background(), src, risor.WithoutDefaultGlobals(), risor.WithGlobals(g))
+	opts := []risor.Option{risor.WithoutDefaultGlobals(), risor.WithGlobals(g)}
+	if reuse != nil {
+		opts = append(opts, risor.WithVM(reuse))
+	}
+	res, err := risor.Eval(context.Background(), src, opts...)
 	if err != nil {
 		return nil, err.Error(), ""
 	}
